@@ -403,6 +403,98 @@ def check_c04(ctx, R):
 
 
 # ---------------------------------------------------------------------------------------------- C18
+def _consistent(node, binding, params):
+    """the If conditions around `node` that test a parameter (`p` / `not p`) agree with the binding {param: True / False}"""
+    prev = node
+    for p in parent_chain(node):
+        if isinstance(p, ast.If):
+            t, neg = p.test, False
+            if isinstance(t, ast.UnaryOp) and isinstance(t.op, ast.Not):
+                t, neg = t.operand, True
+            if isinstance(t, ast.Name) and t.id in params:
+                in_body = any(prev is x or any(prev is y for y in ast.walk(x)) for x in p.body)
+                want = (not neg) if in_body else neg
+                if bool(binding.get(t.id, False)) != want:
+                    return False
+        if isinstance(p, (ast.FunctionDef, ast.AsyncFunctionDef)):
+            break
+        prev = p
+    return True
+
+
+def _flag_binding(call, h):
+    """{flag parameter: constant} for a call of h (defaults for what is not passed); None when an argument is not a constant"""
+    params = h.params[1:] if h.params and h.params[0] == "self" else list(h.params)
+    a = h.node.args
+    binding = {}
+    for p_, d_ in zip(params[len(params) - len(a.defaults):], a.defaults):
+        if isinstance(d_, ast.Constant):
+            binding[p_] = d_.value
+    for k in call.keywords:
+        if k.arg in params and isinstance(k.value, ast.Constant):
+            binding[k.arg] = k.value.value
+    for p_, v in zip(params, call.args):
+        if isinstance(v, ast.Constant):
+            binding[p_] = v.value
+    return binding, params
+
+
+def _kind_round_trip(P, R, pars, cc, ci):
+    R.rule("B5b", "statement kinds survive: a category is written with the directive the reader turns into that category")
+    pc = next((c for c in pars.classes.values() if "parse_model_helper" in c.methods or any(m.startswith("parse_") for m in c.methods)), None)
+    if pc is None:
+        raise AnalysisError("anchor vanished: the EBLIF reader class")
+    toks = {}
+    for rel, m in P.modules.items():
+        if rel.endswith("eblif_tokens.py"):
+            toks = {k: v.value for k, v in m.assigns.items() if isinstance(v, ast.Constant) and isinstance(v.value, str)}
+    # reader: directive -> categories it can produce
+    reader = {}
+    for f in pc.all_funcs():
+        for n in walk_local(f.node):
+            if not (isinstance(n, ast.If) and isinstance(n.test, ast.Compare) and len(n.test.ops) == 1 and isinstance(n.test.ops[0], ast.Eq)):
+                continue
+            tk = next((x for x in (n.test.left, n.test.comparators[0]) if isinstance(x, ast.Attribute) and x.attr in toks), None)
+            if tk is None or not toks[tk.attr].startswith("."):
+                continue
+            for c in [x for s_ in n.body for x in ast.walk(s_)]:
+                if isinstance(c, ast.Call) and isinstance(c.func, ast.Attribute) and norm(c.func.value) == "self" and c.func.attr in pc.methods:
+                    h = pc.methods[c.func.attr]
+                    binding, params = _flag_binding(c, h)
+                    for a_ in walk_local(h.node):
+                        if isinstance(a_, ast.Assign) and isinstance(a_.targets[0], ast.Subscript) and isinstance(a_.targets[0].slice, ast.Constant) \
+                                and a_.targets[0].slice.value == "EBLIF.type" and isinstance(a_.value, ast.Constant) and _consistent(a_, binding, params):
+                            reader.setdefault(toks[tk.attr], set()).add(a_.value.value)
+    # writer: category -> directives it is written with
+    writer = {}
+    for n in walk_local(ci.node):
+        if isinstance(n, ast.If) and isinstance(n.test, ast.Compare) and isinstance(n.test.left, ast.Constant) and isinstance(n.test.left.value, str):
+            cat = n.test.left.value
+            for c in [x for s_ in n.body for x in ast.walk(s_)]:
+                if isinstance(c, ast.Call) and isinstance(c.func, ast.Attribute) and norm(c.func.value) == "self" and c.func.attr in cc.methods:
+                    h = cc.methods[c.func.attr]
+                    binding, params = _flag_binding(c, h)
+                    for k in walk_local(h.node):
+                        if isinstance(k, ast.Constant) and isinstance(k.value, str) and re.match(r"\.[a-z]+\s*$", k.value) and _consistent(k, binding, params):
+                            writer.setdefault(cat, set()).add(k.value.strip())
+    n = 0
+    for d, cats in sorted(reader.items()):
+        for cat in sorted(cats):
+            if cat not in writer:
+                continue
+            n += 1
+            if writer[cat] == {d}:
+                R.ok("B5b", "%s is written as %s, which is read back as %s" % (cat, d, cat), ci.loc())
+            elif d not in writer[cat]:
+                R.bad("B5b", "kind|%s|%s" % (cat, ",".join(sorted(writer[cat]))), ci.loc(),
+                      "instances the reader tags %s (from `%s`) are written as `%s`: after write-then-read they come back as another kind of statement"
+                      % (cat, d, ", ".join(sorted(writer[cat]))))
+            else:
+                R.ok("B5b", "%s can be written as %s" % (cat, d), ci.loc())
+    R.count("categories with a reader directive and a writer branch (B5b)", n)
+    R.floor("categories with a reader directive and a writer branch (B5b)", 3)
+
+
 def _str_consts(node):
     return [n.value for n in ast.walk(node) if isinstance(n, ast.Constant) and isinstance(n.value, str)]
 
@@ -476,6 +568,8 @@ def check_c18(ctx, R):
                 R.ok("B5", "branch %s writes categories[%s]" % (cat, cat), ci.loc(n))
             else:
                 R.bad("B5", "branch|%s" % cat, ci.loc(n), "the branch for %s writes %s" % (cat, ", ".join(subs) or "nothing"))
+    # B5b: statement kinds survive: the directive a category is written with is the directive the reader turns into that category
+    _kind_round_trip(P, R, pars, cc, ci)
     # B4''
     stored = set()
     for n in ast.walk(pars.tree):
@@ -671,7 +765,9 @@ def _connect_skeletons(P):
     the connect itself), with the local names replaced by roles"""
     out = []
     mod = P.module(VP)
+    from ..inline import inlined_view
     for f in mod.all_funcs():
+        f = inlined_view(P, f)  # a helper shared by the two readers is read in each of them
         # the readers of instance port maps: they parse a connection expression and order the pins most-significant first
         if not any(isinstance(c, ast.Call) and isinstance(c.func, ast.Attribute) and c.func.attr == "parse_cable_concatenation" for c in walk_local(f.node)) or \
                 not any(isinstance(c, ast.Call) and ((isinstance(c.func, ast.Attribute) and c.func.attr == "sort") or norm(c.func) == "sorted")
